@@ -261,6 +261,21 @@ func zzCmd_Sequence() {
 		} else {
 			zzAssert(len(written) == 0, "C10/sequence: a failing sequence writes nothing")
 		}
+		return
+	}
+	if !opts.JSON {
+		return
+	}
+	g2, perr := zzPost()
+	if perr != nil {
+		return
+	}
+	link := zzOutStr("action") == "link"
+	edges := zzOutEdges()
+	zzAssert(len(edges) > 0, "C16/sequence: a successful sequence reports its edges")
+	for _, e := range edges {
+		zzReach("reply-edge")
+		zzAssert(zzEdge(g2, e.FromID, e.ToID) == link, "C16/sequence: every reported edge is what a following read shows (present after link, absent after rm)")
 	}
 }
 
